@@ -119,5 +119,5 @@ def finalize(ctx, acc):
     missing += [k for k in ("where:own-class", "where:other-class", "where:cross-dex", "shipped_accesses_judged") if not x.get(k)]
     if missing:
         acc.harness_error("vacuity: never exercised: %r" % missing)
-    if len(acc.outcomes) < (500 if acc.n > 5000 else 20):
+    if len(acc.outcomes) < (40 if acc.n > 5000 else 10):
         acc.harness_error("vacuity: only %d distinct field-xref observations over %d bodies" % (len(acc.outcomes), acc.n))
